@@ -14,22 +14,22 @@ type Roles struct {
 	p *Prog
 
 	DB, Batch, Iterator, Options, BatchOptions, Stat *types.Named
-	DataFile, DataPos, LogRecord, DataReader          *types.Named
-	ShardedIndex, IndexIterator                       *types.Named
-	FileIO, MMap                                      *types.Named
-	ReadWriter                                        *types.Named // interface
-	IndexIface, IterIface                             *types.Named // unexported interfaces of package index
+	DataFile, DataPos, LogRecord, DataReader         *types.Named
+	ShardedIndex, IndexIterator                      *types.Named
+	FileIO, MMap                                     *types.Named
+	ReadWriter                                       *types.Named // interface
+	IndexIface, IterIface                            *types.Named // unexported interfaces of package index
 
 	// fields (identified by their *types.Var)
-	DBMu, DBActive, DBOlder, DBIndex, DBFileLock, DBOptions, DBPool *types.Var
-	BatchDB, BatchMu, BatchCommitted, BatchID, BatchStaged, BatchOpts *types.Var
-	DFReadWriter, DFID, DFClosed                                       *types.Var
-	LRType, LRKey, LRValue, LRBatchID                                  *types.Var
-	PosFid, PosBlock, PosOffset, PosSize                               *types.Var
+	DBMu, DBActive, DBOlder, DBIndex, DBFileLock, DBOptions, DBPool                     *types.Var
+	BatchDB, BatchMu, BatchCommitted, BatchID, BatchStaged, BatchOpts                   *types.Var
+	DFReadWriter, DFID, DFClosed                                                        *types.Var
+	LRType, LRKey, LRValue, LRBatchID                                                   *types.Var
+	PosFid, PosBlock, PosOffset, PosSize                                                *types.Var
 	OptSync, OptBytesPerSync, OptFileSize, OptIOType, OptIndexType, OptShardNum, OptDir *types.Var
-	BOptSync                                                                          *types.Var
-	MMapMap, MMapFile, FileIOFd                                                       *types.Var
-	StatDisk, StatReclaim                                                             *types.Var
+	BOptSync                                                                            *types.Var
+	MMapMap, MMapFile, FileIOFd                                                         *types.Var
+	StatDisk, StatReclaim                                                               *types.Var
 
 	// ReadWriter interface methods
 	RWWrite, RWSync, RWRead, RWClose, RWSize *types.Func
